@@ -587,3 +587,49 @@ M('R32-alpha-scenario', 'R32',
 M('R32-sense-lost', 'R32',
   [('dro.py', "            constr = LinConstr(affine.model, affine.linear, affine.const,\n                               exp_support.sense)", "            constr = LinConstr(affine.model, affine.linear, affine.const,\n                               np.zeros(affine.const.size))")],
   'lifted rows keep the senses')
+
+# ---------------------------------------------------------------------------------------- R33
+M('R33-gcd-after-degree', 'R33',
+  [('lp.py', "        xbeta = int(2 ** np.ceil(np.log2(degree)) - degree)\n",
+    "        xbeta = int(2 ** np.ceil(np.log2(degree)) - degree)\n        g = int(np.gcd.reduce(beta))\n        beta = [b // g for b in beta]\n")],
+  expect='R33|lp.IPCone.to_pot')
+M('R33-pad-floor', 'R33',
+  [('lp.py', "xbeta = int(2 ** np.ceil(np.log2(degree)) - degree)", "xbeta = int(2 ** np.floor(np.log2(degree)) - degree)")],
+  expect='R33|lp.IPCone.to_pot')
+M('R33-pad-twice', 'R33',
+  [('lp.py', "            beta.append(xbeta)\n", "            beta.append(xbeta)\n            beta.append(xbeta)\n")],
+  expect='R33|lp.IPCone.to_pot')
+M('R33-unpadded-path-sorted', 'R33',
+  [('lp.py', "            return IPCone(self.left, self.right, beta), []", "            beta[0] += 1\n            return IPCone(self.left, self.right, beta), []")],
+  expect='R33|lp.IPCone.to_pot')
+M('R33-split-suffix-off-by-one', 'R33',
+  [('lp.py', "                beta2 = [beta[index] - mid] + beta[index+1:]", "                beta2 = [beta[index] - mid] + beta[index:]")],
+  expect='R33|lp.IPCone.split')
+M('R33-split-mid-cum', 'R33',
+  [('lp.py', "            mid = degree//2 - cum[index-1]", "            mid = degree//2 - cum[index]")],
+  expect='R33|lp.IPCone.split')
+M('R33-split-dominant-mid', 'R33',
+  [('lp.py', "            mid = beta[index] - degree//2", "            mid = beta[index] - degree")],
+  expect='R33|lp.IPCone.split')
+M('R33-split-prefix-drops-mid', 'R33',
+  [('lp.py', "            beta1 = beta[:index] + [mid]\n", "            beta1 = beta[:index+1]\n")],
+  expect='R33|lp.IPCone.split')
+T('R33-guard-clause', 'R33',
+  [('lp.py', """        if xbeta > 0:
+            s = model.dvar(aux=True).flatten()
+            right = concat((self.right, s))
+            beta.append(xbeta)
+            return IPCone(s, right, beta), [s >= abs(self.left)]
+        else:
+            return IPCone(self.left, self.right, beta), []
+""", """        if xbeta == 0:
+            return IPCone(self.left, self.right, beta), []
+
+        s = model.dvar(aux=True).flatten()
+        right = concat((self.right, s))
+        beta.append(xbeta)
+        return IPCone(s, right, beta), [s >= abs(self.left)]
+""")])
+T('R33-split-mid-nonzero-spelling', 'R33',
+  [('lp.py', "beta1 = beta[:index] + ([] if mid == 0 else [mid]) + beta[index+1:]",
+    "beta1 = beta[:index] + ([mid] if mid != 0 else []) + beta[index+1:]")])
